@@ -624,10 +624,17 @@ class ReaderExec:
                     fv = self.folder.fold(st.test)
                     out.append(["alt", ast.unparse(st.test), a, b])
             elif isinstance(st, ast.For):
+                it = st.iter
+                # reads performed by the loop header itself: `for _ in range(read_varint(s))`
+                hdr_bound = "_count_L%d" % getattr(st, "lineno", 0)
+                hdr = self.reads_in(it, hdr_bound)
+                out += hdr
                 body = self.block(st.body)
                 if body:
-                    it = st.iter
-                    cnt = ast.unparse(it.args[0]) if isinstance(it, ast.Call) and _cname(it) == "range" and len(it.args) == 1 else ast.unparse(it)
+                    if len(hdr) == 1 and hdr[0][1] == "varint" and isinstance(it, ast.Call) and _cname(it) == "range" and len(it.args) == 1:
+                        cnt = hdr_bound
+                    else:
+                        cnt = ast.unparse(it.args[0]) if isinstance(it, ast.Call) and _cname(it) == "range" and len(it.args) == 1 else ast.unparse(it)
                     out.append(["repeat", cnt, body])
             elif isinstance(st, ast.While):
                 c = self.reads_in(st.test, "<cond>")
